@@ -21,7 +21,7 @@ def specs(tier):
         J('mem-lagsnap3-chunk1:H1R1', 'lagging_snap', dict(n=3, chunk=1), dict(H=1, R=1), dict(k=0, j=1)),
         J('mem-lagsnap3-chunk100:H2R1X1', 'lagging_snap', dict(n=3, chunk=100), dict(H=2, R=1, X=1)),
         J('mem-lagsnap3-big:H2R1S1K1', 'lagging_snap', dict(n=3), dict(H=2, R=1, S=1, K=1)),
-        J('mem-steady3:H2S1K2', 'steady', dict(n=3), dict(H=2, S=1, K=2), dict(k=2)),
+        J('mem-steady2:H2S2K2', 'steady', dict(n=2), dict(H=2, S=2, K=2), dict(k=2)),
         # dump file, no fork
         J('file-lagsnap3-chunk100:H2R1P1', 'lagging_snap', dict(n=3, chunk=100, journal='file+dump'), dict(H=2, R=1, P=1)),
         J('file-steady2:H2S1K1P1', 'steady', dict(n=2, journal='file+dump'), dict(H=2, S=1, K=1, P=1), dict(k=2)),
